@@ -6,6 +6,37 @@
 
 package syntax
 
+import "sort"
+
+// sortedKeys returns the keys of m in increasing order.
+//
+// Iterating over the result rather than over the map itself makes the order
+// in which errors are collected and output is generated repeatable.
+func sortedKeys[V any](m map[string]V) []string {
+	keys := make([]string, 0, len(m))
+	for k := range m {
+		keys = append(keys, k)
+	}
+	sort.Strings(keys)
+	return keys
+}
+
+// sortedCalls returns the keys of m ordered by call ID (and source position
+// for calls sharing an ID), for the same reason as sortedKeys.
+func sortedCalls[V any](m map[*CallStm]V) []*CallStm {
+	calls := make([]*CallStm, 0, len(m))
+	for c := range m {
+		calls = append(calls, c)
+	}
+	sort.Slice(calls, func(i, j int) bool {
+		if calls[i].Id != calls[j].Id {
+			return calls[i].Id < calls[j].Id
+		}
+		return calls[i].Node.Loc.Line < calls[j].Node.Loc.Line
+	})
+	return calls
+}
+
 // GenerateCall creates a CallStm calling the given Callable with the given
 // inputs.  Missing inputs are null.
 func GenerateCall(target Callable, args map[string]Exp) *CallStm {
